@@ -89,6 +89,7 @@ func evalProgram(vm *r.VM, program *syntax.Program, varInputs r.ElementMap) (r.E
 }
 
 func evalExecBlock(vm *r.VM, execBlock *syntax.ExecBlock, params []r.Element) (r.Element, error) {
+	defer verifEnterCall()()
 	vm.BeginScope()
 	defer vm.EndScope()
 
@@ -227,6 +228,7 @@ func handleExceptionSignal(vm *r.VM, blockModule *r.Module, catchBlock []*syntax
 
 // EvalStatement - eval statement
 func evalStatement(vm *r.VM, stmt syntax.Statement) (r.Element, error) {
+	verifTick()
 	// set current line
 	vm.SetCurrentLine(stmt.GetCurrentLine())
 
@@ -493,6 +495,7 @@ func evalWhileLoopStmt(vm *r.VM, node *syntax.WhileLoopStmt) error {
 	// set context's current scope with new one
 
 	for {
+		verifTick()
 		// #1. first execute expr
 		trueExpr, err := evalExpression(vm, node.TrueExpr)
 		if err != nil {
